@@ -12,7 +12,15 @@ The program counter of a thread names its *pending* operation.
 Threads: 0 = main (constructs the pool, starts the clients, performs its own
 calls, joins the clients, destroys the pool), 1..n = workers, n+1.. = clients.
 Jobs are instances `⟨id, code⟩`; `cfg.prog code` is the list of calls the job body
-makes (enqueue / terminate).  Ids are given in push order.
+makes (enqueue / terminate / done() / idle()), optionally ended by a `throw`: the body
+then ends with a `std::runtime_error`, which `ThreadPool::worker` catches (and logs) in
+its `try { job(); } catch (std::exception&)`; the catch block contains no synchronisation
+operation, so in both cases control continues at the fence behind the try/catch — the
+throwing path is the same sequence of program points `wFence, wDoneInc, wBusyDec, wRelock,
+wNotify`, entered with the note `job!id` instead of `job-id` and recorded in the ghost
+list `thrown`.  Ids are given in push order.
+`cfg.initYields`: scheduling points inside the `init_thread` callback a worker runs before
+it first takes the mutex (`wInit`): a worker that is neither idle nor busy.
 
 Ghost state (not in the C++): `started` (ids in the order they were popped for
 execution) and `finished` (ids whose body has returned).
